@@ -155,8 +155,10 @@ func (p *Parser) discardLine() {
 	p.useWhitespace(significantNewline)
 	defer p.useWhitespace(defaultWhitespace)
 	// skip all non-newline tokens
-	for p.nextToken().typ != '\n' && p.nextToken().typ != scanner.EOF {
-		_ = p.curr // fool the linter about the empty loop
+	for {
+		if tok := p.nextToken(); tok.typ == '\n' || tok.typ == scanner.EOF {
+			break
+		}
 	}
 }
 
